@@ -19,6 +19,7 @@ import (
 	"github.com/prometheus/common/model"
 
 	"github.com/prometheus/alertmanager/alert"
+	"github.com/prometheus/alertmanager/config"
 	"github.com/prometheus/alertmanager/dispatch"
 	"github.com/prometheus/alertmanager/timeinterval"
 
@@ -108,6 +109,138 @@ func genSysCase(r *vh.Rand) Case {
 	}
 }
 
+// ---------- config.Load's checks on interval names ----------
+
+type CfgIn struct {
+	MT     []string   `json:"mute_time_intervals"` // names defined in the deprecated top-level list
+	TI     []string   `json:"time_intervals"`      // names defined in time_intervals
+	Root   []string   `json:"root_used"`           // names used by the root route (mute or active)
+	Routes [][]string `json:"routes_used"`         // per child/grandchild route: names used (mute ++ active)
+}
+
+func genCfgCase(r *vh.Rand) Case {
+	pool := []string{"a", "b", "c", "d", "e"}
+	var in CfgIn
+	for _, n := range pool {
+		switch r.Intn(4) {
+		case 0:
+			in.MT = append(in.MT, n)
+		case 1, 2:
+			in.TI = append(in.TI, n)
+		}
+	}
+	if r.Chance(1, 8) && len(in.TI) > 0 { // duplicate, within one list or across the two
+		if r.Bool() {
+			in.MT = append(in.MT, vh.Pick(r, in.TI))
+		} else {
+			in.TI = append(in.TI, vh.Pick(r, in.TI))
+		}
+	}
+	if r.Chance(1, 15) {
+		in.TI = append(in.TI, "") // missing name
+	}
+	defined := append(append([]string{}, in.MT...), in.TI...)
+	use := func() []string {
+		var out []string
+		for k := r.Intn(3); k > 0; k-- {
+			if len(defined) > 0 && !r.Chance(1, 8) {
+				if n := vh.Pick(r, defined); n != "" {
+					out = append(out, n)
+				}
+			} else {
+				out = append(out, vh.Pick(r, []string{"zz", "undefined"}))
+			}
+		}
+		return out
+	}
+	for k := r.Range(1, 3); k > 0; k-- {
+		in.Routes = append(in.Routes, use())
+	}
+	if r.Chance(1, 10) {
+		in.Root = use()
+	}
+	return Case{Kind: "cfg", Cfg: &in}
+}
+
+func cfgYAML(in *CfgIn, r *vh.Rand) string {
+	var sb strings.Builder
+	names := func(key string, l []string, indent string) {
+		if len(l) > 0 {
+			fmt.Fprintf(&sb, "%s%s: [%s]\n", indent, key, strings.Join(l, ", "))
+		}
+	}
+	split := func(l []string) ([]string, []string) { // a route's names over its two lists
+		h := len(l) / 2
+		return l[:h], l[h:]
+	}
+	sb.WriteString("route:\n  receiver: default\n")
+	rm, ra := split(in.Root)
+	names("mute_time_intervals", rm, "  ")
+	names("active_time_intervals", ra, "  ")
+	sb.WriteString("  routes:\n")
+	for i, l := range in.Routes {
+		m, a := split(l)
+		indent := "    "
+		if i == 2 { // the third route is a grandchild (checkTimeInterval recurses)
+			indent = "        "
+			sb.WriteString("      routes:\n")
+		}
+		fmt.Fprintf(&sb, "%s- receiver: default\n%s  matchers: ['k=\"v%d\"']\n", indent, indent, i)
+		names("mute_time_intervals", m, indent+"  ")
+		names("active_time_intervals", a, indent+"  ")
+	}
+	sb.WriteString("receivers:\n  - name: default\n")
+	def := func(key string, l []string) {
+		if len(l) == 0 {
+			return
+		}
+		sb.WriteString(key + ":\n")
+		for _, n := range l {
+			if n == "" {
+				sb.WriteString("  - time_intervals:\n      - weekdays: ['monday']\n")
+			} else {
+				sb.WriteString("  - name: " + n + "\n    time_intervals:\n      - weekdays: ['monday']\n")
+			}
+		}
+	}
+	def("mute_time_intervals", in.MT)
+	def("time_intervals", in.TI)
+	return sb.String()
+}
+
+func (rn *runner) cfg(c *Case) {
+	y := cfgYAML(c.Cfg, nil)
+	_, err := config.Load(y)
+	accepted := err == nil
+	defined := append(append([]string{}, c.Cfg.MT...), c.Cfg.TI...)
+	routes := make([]string, len(c.Cfg.Routes))
+	for i, l := range c.Cfg.Routes {
+		routes[i] = vh.ListOf(l, vh.Str)
+	}
+	rn.run.Add(vh.App("CCfg", vh.ListOf(defined, vh.Str), vh.ListOf(c.Cfg.Root, vh.Str), vh.List(routes), vh.Bool(accepted)), c, true)
+	rn.run.Count("cfg", fmt.Sprintf("accepted:%v", accepted))
+	// direct oracle: an accepted configuration defines every name a route uses, uniquely, and none on the root
+	seen := map[string]int{}
+	for _, n := range defined {
+		seen[n]++
+	}
+	ok := len(c.Cfg.Root) == 0
+	for n, k := range seen {
+		ok = ok && k == 1 && n != ""
+	}
+	for _, l := range c.Cfg.Routes {
+		for _, n := range l {
+			ok = ok && seen[n] > 0
+		}
+	}
+	if accepted && !ok {
+		rn.run.Violate("config-accepted-with-bad-interval-names", "config.Load accepted undefined / duplicate / unnamed intervals or intervals on the root route", c)
+	}
+	if !accepted && ok {
+		rn.run.Violate("valid-config-rejected", "config.Load rejected a configuration whose interval names are all defined once: "+errClass(err), c)
+	}
+}
+
 type SysIn struct {
 	Start int64 `json:"start"` // unix seconds at which the alert is submitted
 	GW    int64 `json:"group_wait_s"`
@@ -130,6 +263,10 @@ func (rn *runner) sys(c *Case) {
 		tis          []configTI
 	}{}
 	var fail string
+	if _, err := config.Load(c.YAML); err != nil {
+		rn.run.Violate("valid-spec-rejected", "config.Load rejected a well-formed configuration with time intervals: "+errClass(err), c)
+		return
+	}
 	synctest.Test(rn.t, func(t *testing.T) {
 		time.Sleep(time.Unix(c.Sys.Start, 0).Sub(time.Now()))
 		s := sim.New(t, sim.Options{ConfigYAML: c.YAML,
